@@ -165,11 +165,13 @@ class Exec:
 
     def to_fp(self, bits, t):
         if t.k == "x86_fp80": raise Unsupported("x86_fp80 in memory")
+        if not conc(bits) and z3.is_app(bits) and bits.decl().kind() == z3.Z3_OP_FPA_TO_IEEE_BV:
+            return bits.arg(0)          # value stored as an FP term and loaded back unchanged (NaN payloads aside)
         return z3.fpBVToFP(bv(bits, self.width(t)), sort_of(t))
 
     def fp_bits(self, v, t):
         if t.k == "x86_fp80": raise Unsupported("x86_fp80 in memory")
-        return simp(z3.fpToIEEEBV(v))
+        return z3.fpToIEEEBV(v)
 
     def fpconst(self, fr, t):
         s = sort_of(t)
